@@ -10,6 +10,7 @@ import torch.nn as nn
 from plinio.methods.mps.quant.backends.utils import binary_search
 from plinio.methods.mps.quant.backends.match.nn.conv2d import MATCHConv2d
 from plinio.methods.mps.quant.backends.match.nn.linear import MATCHLinear
+from plinio.methods.mps.quant.backends.maupiti.nn.conv2d import MAUPITIConv2d
 from plinio.methods.mps.quant.quantizers import PACTAct, MinMaxWeight, QuantizerBias, DummyQuantizer
 
 _UTILS = 'plinio.methods.mps.quant.backends.utils'
@@ -161,6 +162,27 @@ def h_match_ctor(H, which, bias):
         H.ensure('match-ctor:forward-defined-and-in-range', H.and_(H.is_integer(e), H.ge(e, 0), H.le(e, 255)))
 
 
+def h_maupiti_shared_quantizer(H, wa, wb):
+    """BOUNDED (concrete values): two MAUPITI layers built one after the other with the SAME stateful weight quantizer (what the conversion does
+    for a convolution followed by a depthwise convolution): the second layer must use the scale of ITS OWN weights; stored integers in range"""
+    ca, cb = nn.Conv2d(1, 1, 1), nn.Conv2d(1, 1, 1)
+    H.set_(ca.weight, H.const_tensor([[[[wa]]]]))
+    H.set_(cb.weight, H.const_tensor([[[[wb]]]]))
+    H.set_(ca.bias, H.const_tensor([0.25]))
+    H.set_(cb.bias, H.const_tensor([0.25]))
+    w_q = MinMaxWeight(4, 1)
+    MAUPITIConv2d(ca, PACTAct(8), PACTAct(8), w_q, QuantizerBias(32, 1))
+    lb = MAUPITIConv2d(cb, PACTAct(8), PACTAct(8), w_q, QuantizerBias(32, 1))
+    ref = MinMaxWeight(4, 1)
+    ref(cb.weight)
+    H.observe('s_w', lb.s_w)
+    H.ensure('maupiti-ctor:weight-scale-is-the-scale-of-this-layers-own-weights', H.eq(lb.s_w, ref.scale))
+    H.ensure('maupiti-ctor:stored-weight-is-an-integer-in-the-signed-range',
+             H.and_(*[H.and_(H.is_integer(e), H.ge(e, -8), H.le(e, 7)) for e in H.elements(lb.weight)]))
+    H.ensure('maupiti-ctor:scale-below-2^15-and-shift-in-range',
+             H.and_(H.lt(H.scalar(lb.scale.flatten()[0]), 2 ** 15), H.ge(H.scalar(lb.shift), 0), H.lt(H.scalar(lb.shift), 32)))
+
+
 PROPERTY = {
     'C14': dict(
         level='other',
@@ -168,8 +190,8 @@ PROPERTY = {
                     '_integer_approximation (binary_search used through its contract), dilation padding of weights, floor-based requantisation '
                     'range of the MATCH forward, definedness of the MATCH constructors with and without bias',
         not_decided=['integerize_arch (torch.fx graph rewrite)', 'per-layer reproduction of the fake-quantized network to within one level (needs the layer '
-                     'wiring and the shared stateful quantizers)', 'MAUPITI layers: _integer_approximation hard-codes 16 scale bits x 32 shifts, the selection loop '
-                     'forks per shift (2^32 paths) - out of reach; zero-point compensation', 'last-layer logits clause'],
+                     'wiring and the shared stateful quantizers)', 'MAUPITI layers for symbolic values: _integer_approximation hard-codes 16 scale bits x 32 shifts, the selection loop forks per shift (2^32 paths) - '
+                     'only a BOUNDED check on concrete values (maupiti-shared-quantizer: two layers sharing a stateful weight quantizer) is run, labelled bounded; zero-point compensation', 'last-layer logits clause'],
         assumptions=['scale_bit / shift_pos enumerated small for the selection loop of _integer_approximation (each candidate shift forks the path)',
                      'integer bias magnitude below 2^(32 - scale_bit): otherwise every candidate shift overflows and the selection returns None (torch.tensor(None) raises) - the regime where no valid answer exists is outside the clause'],
     ),
@@ -178,6 +200,8 @@ PROPERTY = {
 _B = (True, False)
 _BK = 'plinio/methods/mps/quant/backends/'
 HARNESSES = [
+    dict(name='maupiti-shared-quantizer', fn='h_maupiti_shared_quantizer', property=['C14'], functions=[_BK + 'maupiti/nn/conv2d.py::MAUPITIConv2d.__init__', _BK + 'maupiti/nn/conv2d.py::MAUPITIConv2d._integer_approximation'],
+         quick=[dict(wa=4.0, wb=0.5), dict(wa=0.25, wb=2.0)], thorough=[dict(wa=a, wb=b) for a in (4.0, 0.25, 1.0) for b in (0.5, 2.0, 1.0)], timeout=60, crosscheck=1),
     dict(name='binary-search', fn='h_binary_search', property=['C14'], functions=[_BK + 'utils.py::binary_search'],
          quick=[dict(div=d) for d in (1, 0.5, 0.25, 2 ** -10, 2 ** -23)], thorough=[dict(div=2 ** -s) for s in range(0, 32)], crosscheck=0),
     dict(name='integer-approximation', fn='h_integer_approximation', property=['C14'],
